@@ -55,7 +55,80 @@ type call struct {
 	Fn   string   `json:"fn"`
 	Args []uint64 `json:"args"`
 	Mem  []memw   `json:"mem,omitempty"`
+	// Indirect: the guest reaches the imported WASI function through its table
+	// (call_indirect) instead of a direct call.
+	Indirect bool `json:"indirect,omitempty"`
+	// Ctx is the kind of context the host passes to the call: "" context.Background(),
+	// "value" WithValue, "cancel" WithCancel (never cancelled), "timeout" WithTimeout(1h),
+	// "deadline" WithDeadline(now+1h).
+	Ctx string `json:"ctx,omitempty"`
 }
+
+var ctxKinds = []string{"", "", "", "", "value", "cancel", "cancel", "timeout", "deadline"}
+
+type ctxKey struct{}
+
+// callCtx builds the context of one call from the run's parent context.
+func callCtx(parent context.Context, kind string) (context.Context, context.CancelFunc) {
+	switch kind {
+	case "value":
+		return context.WithValue(context.Background(), ctxKey{}, "c18"), func() {}
+	case "cancel":
+		return context.WithCancel(parent)
+	case "timeout":
+		return context.WithTimeout(parent, time.Hour)
+	case "deadline":
+		return context.WithDeadline(parent, time.Now().Add(time.Hour))
+	}
+	return context.Background(), func() {}
+}
+
+// variant returns the script with every call made the other way (direct <-> through the
+// table) and with plain background contexts: neither may change the trace.
+func variant(sc []call) []call {
+	out := make([]call, len(sc))
+	for i, c := range sc {
+		c.Indirect = !c.Indirect
+		c.Ctx = ""
+		out[i] = c
+	}
+	return out
+}
+
+// requestedSleep parses the subscriptions of a poll_oneoff call from guest memory and returns
+// the shortest relative clock timeout (the time a really sleeping implementation would wait);
+// 0 when there is none.
+func requestedSleep(mem []byte, c call) time.Duration {
+	if c.Fn != "poll_oneoff" || len(c.Args) != 4 {
+		return 0
+	}
+	in, n := c.Args[0]&0xffffffff, c.Args[2]&0xffffffff
+	if n == 0 || n > 64 || in+n*48 > uint64(len(mem)) {
+		return 0
+	}
+	var min time.Duration
+	for i := uint64(0); i < n; i++ {
+		sub := mem[in+i*48 : in+i*48+48]
+		if sub[8] != 0 || binary.LittleEndian.Uint16(sub[40:]) != 0 {
+			continue // not a relative clock subscription
+		}
+		if d := time.Duration(binary.LittleEndian.Uint64(sub[24:])); d > 0 && (min == 0 || d < min) {
+			min = d
+		}
+	}
+	return min
+}
+
+// Bounds of the "no real sleep, no blocking" oracle. A call that asks for at least
+// sleepAsked must return within sleepBound; no call at all may take blockBound. Both are
+// only reported when they repeat in two more executions of the same script (a loaded
+// machine can delay one call, a real sleep repeats every time).
+const (
+	sleepAsked = 3 * time.Second
+	sleepBound = 1 * time.Second
+	blockBound = 10 * time.Second
+	runBound   = 20 * time.Second // the run's cancellable contexts are cancelled after this
+)
 
 type caseT struct {
 	Script   []call `json:"script"`
@@ -135,7 +208,7 @@ func subscription(userdata uint64, typ byte, id uint32, timeout uint64, precisio
 const hourNs = uint64(3600e9)
 
 var (
-	longSleeps  = []uint64{hourNs, 24 * hourNs, 1<<63 - 1}
+	longSleeps  = []uint64{3e9, 5e9, 60e9, 600e9, hourNs, hourNs, 24 * hourNs, 1<<63 - 1}
 	shortSleeps = []uint64{0, 1, 1000}
 	oddSleeps   = []uint64{1 << 63, ^uint64(0)} // become non-positive durations
 	ptrPool     = []uint64{mRes, mRes + 8, mBuf, mBuf2, mIovs, mIovs + 16, mStr, mSubs, mOutTxt, 0, 4, 65528, 65532, 65535, 65536, 1 << 31, 0xfffffff8, 0xffffffff}
@@ -333,11 +406,19 @@ func genScript(t *rapid.T) []call {
 	n := rapid.IntRange(3, 32).Draw(t, "ncalls")
 	var sc []call
 	for i := 0; i < n; i++ {
+		var c call
 		if rapid.IntRange(0, 9).Draw(t, "style") < 7 {
-			sc = append(sc, genWellFormed(t, sigs))
+			c = genWellFormed(t, sigs)
 		} else {
-			sc = append(sc, genGeneric(t, sigs, rapid.SampledFrom(names).Draw(t, "fn")))
+			c = genGeneric(t, sigs, rapid.SampledFrom(names).Draw(t, "fn"))
 		}
+		c.Indirect = rapid.IntRange(0, 2).Draw(t, "indirect") == 0
+		if c.Fn == "poll_oneoff" {
+			c.Ctx = rapid.SampledFrom(ctxKinds[3:]).Draw(t, "ctx")
+		} else {
+			c.Ctx = rapid.SampledFrom(ctxKinds).Draw(t, "ctx")
+		}
+		sc = append(sc, c)
 	}
 	return sc
 }
@@ -345,6 +426,7 @@ func genScript(t *rapid.T) []call {
 // features of a script for the non-triviality rule and the labels.
 type features struct {
 	clock, random, exposing, longSleep, stdinRead, procExit bool
+	indirect, cancellable, sleepWithCancellable             bool
 }
 
 func inMem(ptr, n uint64) bool { return ptr+n <= memSize && ptr+n >= ptr }
@@ -352,6 +434,12 @@ func inMem(ptr, n uint64) bool { return ptr+n <= memSize && ptr+n >= ptr }
 func scriptFeatures(sc []call) features {
 	var f features
 	for _, c := range sc {
+		if c.Indirect {
+			f.indirect = true
+		}
+		if c.Ctx == "cancel" || c.Ctx == "timeout" || c.Ctx == "deadline" {
+			f.cancellable = true
+		}
 		switch c.Fn {
 		case "clock_time_get":
 			if c.Args[0] <= 1 && inMem(c.Args[2]&0xffffffff, 8) {
@@ -373,8 +461,11 @@ func scriptFeatures(sc []call) features {
 			for _, m := range c.Mem {
 				b, _ := hex.DecodeString(m.Hex)
 				for o := 0; o+48 <= len(b); o += 48 {
-					if b[o+8] == 0 && binary.LittleEndian.Uint64(b[o+24:]) >= hourNs && binary.LittleEndian.Uint64(b[o+24:]) < 1<<63 && binary.LittleEndian.Uint16(b[o+40:]) == 0 {
+					if b[o+8] == 0 && binary.LittleEndian.Uint64(b[o+24:]) >= uint64(sleepAsked) && binary.LittleEndian.Uint64(b[o+24:]) < 1<<63 && binary.LittleEndian.Uint16(b[o+40:]) == 0 {
 						f.longSleep = true
+						if c.Ctx == "cancel" || c.Ctx == "timeout" || c.Ctx == "deadline" {
+							f.sleepWithCancellable = true
+						}
 					}
 				}
 			}
@@ -431,6 +522,7 @@ var zeroPage = make([]byte, memSize)
 type runResult struct {
 	Trace    []string `json:"trace"`
 	Problems []string `json:"problems,omitempty"` // direct oracle failures (leaks etc.)
+	Slow     []string `json:"slow,omitempty"`     // calls that took suspiciously long (reported only if they repeat)
 }
 
 func findMarkers(region []byte, base int, markers [][]byte, what string, probs *[]string) {
@@ -443,7 +535,6 @@ func findMarkers(region []byte, base int, markers [][]byte, what string, probs *
 
 // runScript runs the fixed prologue and the script on a fresh proxy instance.
 func runScript(p *wasiproxy.Proxy, sc []call, markers [][]byte) runResult {
-	ctx := context.Background()
 	var res runResult
 	maxMarker := 0
 	for _, m := range markers {
@@ -462,6 +553,11 @@ func runScript(p *wasiproxy.Proxy, sc []call, markers [][]byte) runResult {
 	}
 	mem.Write(0, initialImage())
 	shadow := make([]byte, memSize)
+	// cancellable contexts of this run hang off one parent that is cancelled after runBound, so
+	// that an implementation waiting on the context cannot hang the shard
+	parent, cancelParent := context.WithCancel(context.Background())
+	wd := time.AfterFunc(runBound, cancelParent)
+	defer func() { wd.Stop(); cancelParent() }()
 	step := func(label string, c call) (uint32, wz.Outcome) {
 		for _, w := range c.Mem {
 			b, _ := hex.DecodeString(w.Hex)
@@ -469,7 +565,23 @@ func runScript(p *wasiproxy.Proxy, sc []call, markers [][]byte) runResult {
 		}
 		cur, _ := mem.Read(0, memSize)
 		copy(shadow, cur)
-		errno, out := p.Call(ctx, c.Fn, c.Args...)
+		asked := requestedSleep(cur, c)
+		cctx, cancel := callCtx(parent, c.Ctx)
+		t0 := time.Now()
+		var errno uint32
+		var out wz.Outcome
+		if c.Indirect {
+			errno, out = p.CallIndirect(cctx, c.Fn, c.Args...)
+		} else {
+			errno, out = p.Call(cctx, c.Fn, c.Args...)
+		}
+		el := time.Since(t0)
+		cancel()
+		if asked >= sleepAsked && el >= sleepBound {
+			res.Slow = append(res.Slow, fmt.Sprintf("%s %s (context kind %q) asks for a sleep of %v and took real time (>= %v): the default configuration must not really sleep", label, c.Fn, c.Ctx, asked, sleepBound))
+		} else if el >= blockBound {
+			res.Slow = append(res.Slow, fmt.Sprintf("%s %s (context kind %q) blocked the host for >= %v", label, c.Fn, c.Ctx, blockBound))
+		}
 		cur, _ = mem.Read(0, memSize)
 		var sb strings.Builder
 		fmt.Fprintf(&sb, "%s %s: errno=%d outcome=%s mem=[", label, c.Fn, errno, out.String())
@@ -560,10 +672,42 @@ func runEngine(engine string, sc []call, markers [][]byte, full bool) ([]runResu
 		if err != nil {
 			return nil, nil, err
 		}
-		out = append(out, runScript(p3, sc, markers))
-		names = append(names, engine+"/runtimeB/instance1")
+		out = append(out, runScript(p3, variant(sc), markers))
+		names = append(names, engine+"/runtimeB/instance1 running the variant (every call made the other way, direct<->through the table, with background contexts)")
 	}
 	return out, names, nil
+}
+
+// confirmSlow: a run reported calls that took real time. The script is executed twice more;
+// only a delay that shows up every time is a violation (returned), anything else is load.
+func confirmSlow(engine string, sc []call, markers [][]byte, full bool, first []runResult) (string, error) {
+	msg := ""
+	for _, r := range first {
+		if len(r.Slow) > 0 {
+			msg = r.Slow[0]
+			break
+		}
+	}
+	if msg == "" {
+		return "", nil
+	}
+	for k := 0; k < 2; k++ {
+		rs, _, err := runEngine(engine, sc, markers, full)
+		if err != nil {
+			return "", err
+		}
+		again := false
+		for _, r := range rs {
+			if len(r.Slow) > 0 {
+				again = true
+			}
+		}
+		if !again {
+			evid.Label("slow-call-not-repeated", 1)
+			return "", nil
+		}
+	}
+	return msg + " (repeated in 3 of 3 executions)", nil
 }
 
 // lineLabel is the part of a trace line that is a function of the script ("#3 random_get").
@@ -678,6 +822,12 @@ func runLocal(sc []call, markers [][]byte) (ref []string, v *violation, err erro
 				d.err = err
 				break
 			}
+			if slow, err := confirmSlow(eng, sc, markers, true, rs); err != nil {
+				d.err = err
+				break
+			} else if slow != "" && d.v == nil {
+				d.v = &violation{eng + " in this process: " + slow, ""}
+			}
 			for i, r := range rs {
 				if len(r.Problems) > 0 && d.v == nil {
 					d.v = &violation{fmt.Sprintf("%s in this process: %s", names[i], strings.Join(r.Problems, "; ")), ""}
@@ -696,9 +846,9 @@ func runLocal(sc []call, markers [][]byte) (ref []string, v *violation, err erro
 	select {
 	case d := <-ch:
 		return d.ref, d.v, d.err
-	case <-time.After(40 * time.Second):
+	case <-time.After(150 * time.Second):
 		f := scriptFeatures(sc)
-		return nil, &violation{fmt.Sprintf("the script did not finish within 40 s in this process (asks for long sleeps: %v): the default configuration must not really sleep or block", f.longSleep), ""}, nil
+		return nil, &violation{fmt.Sprintf("the script did not finish within 150 s in this process (asks for long sleeps: %v): the default configuration must not really sleep or block", f.longSleep), ""}, nil
 	}
 }
 
@@ -855,6 +1005,13 @@ func TestChild(t *testing.T) {
 			co.Error = err.Error()
 			return
 		}
+		if slow, err := confirmSlow(eng, sc, markers, false, rs); err != nil {
+			co.Error = err.Error()
+			return
+		} else if slow != "" {
+			rs[0].Problems = append(rs[0].Problems, slow)
+		}
+		rs[0].Slow = nil
 		co.Results[eng] = rs[0]
 	}
 }
@@ -1148,6 +1305,7 @@ func runCase(c caseT) (v *violation, err error) {
 		return runConcurrentCase(*c.Concurrent)
 	}
 	parentMarkersOnce.Do(func() { parentMarkers = hostMarkers() })
+	evid.Journal(c)
 	ref, v, err := runLocal(c.Script, parentMarkers)
 	if err != nil || v != nil {
 		return v, err
@@ -1173,6 +1331,9 @@ func record(c caseT) {
 	add(f.stdinRead, "script-reads-stdin")
 	add(f.procExit, "script-calls-proc_exit")
 	add(len(c.Children) > 0, "script-run-in-child-processes")
+	add(f.indirect, "script-has-call-through-table")
+	add(f.cancellable, "script-has-call-with-cancellable-context")
+	add(f.sleepWithCancellable, "script-asks-long-sleep-with-cancellable-context")
 	evid.Case(caseKey(c), f.clock && f.random && f.exposing, lbls...)
 	seen := map[string]bool{}
 	for _, cl := range c.Script {
